@@ -134,6 +134,19 @@ func runOrderOnly(c *core.Ctx, only string) {
 			}
 			var rec *ssa.Call
 			var emits []ssa.Instruction
+			reg := regionOf(fn)
+			appendsIn := func(h *ssa.Function) bool {
+				found := false
+				sub := regionOf(h)
+				sub.each(func(in ssa.Instruction) {
+					if call, ok := in.(*ssa.Call); ok {
+						if b, ok := call.Call.Value.(*ssa.Builtin); ok && b.Name() == "append" {
+							found = true
+						}
+					}
+				})
+				return found
+			}
 			sx.EachInstr(fn, func(in ssa.Instruction) {
 				call, ok := in.(*ssa.Call)
 				if !ok {
@@ -141,6 +154,10 @@ func runOrderOnly(c *core.Ctx, only string) {
 				}
 				if sx.Callee(call) == fn {
 					rec = call
+				}
+				// a helper of the accessor that does the appending emits at its call site
+				if h := sx.Callee(call); h != nil && h != fn && reg.in[h] && appendsIn(h) {
+					emits = append(emits, call)
 				}
 				if b, ok := call.Call.Value.(*ssa.Builtin); ok && b.Name() == "append" {
 					emits = append(emits, call)
@@ -236,7 +253,8 @@ var rDedup = &Rule{
 			return
 		}
 		var app *ssa.Call
-		sx.EachInstr(hf, func(in ssa.Instruction) {
+		hreg := regionOf(hf)
+		hreg.each(func(in ssa.Instruction) {
 			if call, ok := in.(*ssa.Call); ok {
 				if b, ok := call.Call.Value.(*ssa.Builtin); ok && b.Name() == "append" {
 					app = call
@@ -253,7 +271,7 @@ var rDedup = &Rule{
 		if len(els) == 1 {
 			hint = els[0]
 		}
-		lits := dominatingLits(app.Block())
+		lits := hreg.lits(app.Block())
 		guardOK := false
 		for _, l := range lits {
 			ex, ok := l.V.(*ssa.Extract)
